@@ -359,10 +359,14 @@ class BaseTemplate:
                 body, self.default_encoding
             )
 
-        self.content_type = content_type or self.default_content_type
-        self.content_encoding = encoding
+        # (the template's lock first, as on the way through
+        # ``cook_check``: a subclass that serialises ``cook`` with a lock
+        # of its own then meets one order of the two on every path)
+        with _reload_lock(self):
+            self.content_type = content_type or self.default_content_type
+            self.content_encoding = encoding
 
-        self.cook(body)
+            self.cook(body)
 
     def _get_module_name(self, name: str) -> str:
         return "%s.py" % name
